@@ -1917,7 +1917,11 @@ class Block(Instance):
     def write(self) -> TextBlock:
         return TextBlock(
             [
-                *([f"-- Block ({self._name})"] if self._name is not None else []),
+                *(
+                    comment_list(f"Block ({self._name})")
+                    if self._name is not None
+                    else []
+                ),
                 *comment_list(self._attributes.get("comment", None)),
                 *[subblock.write() for subblock in self._subblocks],
                 "\n",
@@ -1952,7 +1956,8 @@ class Concurrent(Instance):
         return TextBlock(
             [
                 f"",
-                f"-- CONCURRENT BLOCK ({self._name})",
+                # the name is chosen by the user, it can contain line breaks
+                *comment_list(f"CONCURRENT BLOCK ({self._name})"),
                 *comment_list(self._attributes.get("comment", None)),
                 *[stmt.write(self._scope) for stmt in self._stmts],
             ],
